@@ -24,6 +24,10 @@ def sh(cmd, cwd=None, timeout=1800):
 
 
 def main():
+    if sys.argv[1] == "--recheck":
+        for name in (sys.argv[2:] or sorted(os.listdir(os.path.join(VERIF, "seeded")))):
+            recheck(name)
+        return
     name, prop, sdir = sys.argv[1:4]
     needs = ""
     if "--needs" in sys.argv:
@@ -58,6 +62,7 @@ def main():
             sys.exit("demo does not compile with the change:\n" + out[-2000:])
         rc1, out1 = sh("%s/demo_after" % wt, timeout=300)
         ran.append("demo with change: exit %d" % rc1)
+        meta["what_i_ran"] = ran
         meta["confirmed"] = {"demo_exit_unchanged": rc0, "tests_pass_with_change": passed, "demo_exit_with_change": rc1,
                              "demo_output_with_change": out1[-600:]}
         ok = rc0 == 0 and passed and rc1 != 0
@@ -67,6 +72,22 @@ def main():
             sys.exit(1)
     finally:
         sh("git -C /repo worktree remove --force %s" % wt)
+    dst = os.path.join(VERIF, "seeded", name)
+    os.makedirs(dst, exist_ok=True)
+    shutil.copy(patch, os.path.join(dst, "patch.diff"))
+    shutil.copy(demo, os.path.join(dst, "demo.cpp"))
+    if os.path.exists(os.path.join(sdir, "notes.md")):
+        shutil.copy(os.path.join(sdir, "notes.md"), os.path.join(dst, "notes.md"))
+    json.dump(meta, open(os.path.join(dst, "meta.json"), "w"), indent=1)
+    recheck(name)
+
+
+def recheck(name):
+    dst = os.path.join(VERIF, "seeded", name)
+    meta = json.load(open(os.path.join(dst, "meta.json")))
+    prop = meta["property"]
+    patch = os.path.join(dst, "patch.diff")
+    ran = [x for x in meta.get("what_i_ran", []) if not x.startswith("git -C /repo apply")] or []
     # run the checks against it
     rc, out = sh("git -C /repo status --porcelain")
     if out.strip():
@@ -93,14 +114,8 @@ def main():
     meta["analysis_broken"] = broken
     meta["caught_by_target_property_check"] = prop in caught
     meta["what_i_ran"] = ran + ["git -C /repo apply patch.diff; each quick_cmd; git -C /repo checkout -- ."]
-    dst = os.path.join(VERIF, "seeded", name)
-    os.makedirs(dst, exist_ok=True)
-    shutil.copy(patch, os.path.join(dst, "patch.diff"))
-    shutil.copy(demo, os.path.join(dst, "demo.cpp"))
-    if os.path.exists(os.path.join(sdir, "notes.md")):
-        shutil.copy(os.path.join(sdir, "notes.md"), os.path.join(dst, "notes.md"))
     json.dump(meta, open(os.path.join(dst, "meta.json"), "w"), indent=1)
-    print("caught by:", caught, "| broken:", broken, "| target %s caught: %s" % (prop, prop in caught))
+    print(name, "caught by:", caught, "| broken:", broken, "| target %s caught: %s" % (prop, prop in caught))
     for p in caught:
         print("  ", p, results[p]["where"][:3])
 
